@@ -673,7 +673,10 @@ fn drain_ok_for(ctx: &Ctx, sub: &str) -> bool {
             if let Req::Pull { sub: s, .. } = &c.req {
                 if s == sub {
                     any = true;
-                    if !c.returned_ok() {
+                    // NOT_FOUND for a subscription nobody ever asked to delete is itself an
+                    // answer: it vanished, and whatever it had not delivered is lost.
+                    let vanished = c.code() == Some(NOT_FOUND);
+                    if !c.returned_ok() && !vanished {
                         return false;
                     }
                 }
@@ -860,6 +863,47 @@ fn rule_c08(ctx: &Ctx, out: &mut Vec<Violation>) {
             }
         }
     }
+    // Contiguity seen from the IDs: first deliveries follow ID order and the messages of one request
+    // stay contiguous, so on a topic with a subscription attached throughout, no other request's
+    // ID may lie inside the ID range of a request.
+    for (topic, list) in publishes_by_topic.iter() {
+        let attached_since = m
+            .sub_creates
+            .keys()
+            .filter_map(|n| m.unique_sub(n))
+            .filter(|i| i.topic == *topic && !m.sub_delete_ever(&i.name))
+            .map(|i| m.calls[&i.create_call].ret_seq_or_max())
+            .min();
+        let since = match attached_since {
+            Some(s) => s,
+            None => continue,
+        };
+        if m.topic_deletes.contains_key(*topic) {
+            continue;
+        }
+        let ranges: Vec<(u32, u128, u128, Vec<u128>)> = list
+            .iter()
+            .filter(|c| c.inv_seq > since)
+            .filter_map(|c| match &c.out {
+                Some(Outcome::Ok(Resp::Published(ids))) => {
+                    let nums: Vec<u128> = ids.iter().filter_map(|s| parse_id(s)).collect();
+                    if nums.is_empty() {
+                        None
+                    } else {
+                        Some((c.id, *nums.iter().min().unwrap(), *nums.iter().max().unwrap(), nums))
+                    }
+                }
+                _ => None,
+            })
+            .collect();
+        for (ca, lo, hi, _) in ranges.iter() {
+            for (cb, _, _, nums) in ranges.iter() {
+                if ca != cb && nums.iter().any(|x| x > lo && x < hi) {
+                    out.push(v("C08.contiguous", "interleaved_ids", format!("topic {}: an ID of Publish call {} lies inside the ID range [{}, {}] of Publish call {}: the two requests' messages are interleaved in acceptance order", topic, cb, lo, hi, ca)));
+                }
+            }
+        }
+    }
     // Delivery order of first deliveries, per subscription without unobserved deliveries.
     let mut subs: BTreeSet<&str> = BTreeSet::new();
     for d in m.deliveries.iter() {
@@ -954,6 +998,13 @@ fn rule_c09(ctx: &Ctx, out: &mut Vec<Violation>) {
     for (id, list) in m.by_msg_id.iter() {
         if list.len() > 1 {
             out.push(v("C09.unique", "dup_id", format!("message id {} returned for {} different published messages", id, list.len())));
+        }
+    }
+    // A push body that cannot be read back (not JSON, data not standard base64, no message id)
+    // did not deliver the published bytes.
+    for p in m.posts.values() {
+        if !p.parse_ok {
+            out.push(v("C09.fields", "push_undecodable", format!("POST #{} to {}: the body cannot be decoded back into the message (JSON with message.data as standard base64, message.message_id)", p.post, p.url)));
         }
     }
     let mut times: HashMap<&str, (i64, i32)> = HashMap::new();
